@@ -45,6 +45,7 @@ type c08Spec struct {
 	Procs  int    `json:"procs,omitempty"` // GOMAXPROCS during the case (0 = unchanged)
 	Sock   string `json:"sock,omitempty"`  // vt kind: bus xbus star xstar
 	Steps  int    `json:"steps,omitempty"` // vt kind: number of inject/send/sentinel steps
+	TTL    string `json:"ttl,omitempty"`   // star topologies: "tight" = every member's TTL is set to the longest path of the topology
 }
 
 func (sp c08Spec) String() string {
@@ -106,6 +107,9 @@ func TestC08(t *testing.T) {
 			sp.Fam, sp.Kind, sp.Shape = "star", "tree", sh
 		default:
 			sp.Fam, sp.Kind, sp.Shape = "star", "path", []int{2 + rnd.Intn(4)}
+		}
+		if sp.Fam == "star" && i%3 == 0 {
+			sp.TTL = "tight"
 		}
 		cases = append(cases, mon.CaseSpec{Name: sp.Fam + "-" + sp.Kind, Spec: sp})
 	}
@@ -438,6 +442,15 @@ func c08Topo(c *mon.Case, sp c08Spec) {
 		}
 		for i := 0; i < ns; i++ {
 			s := hx.MustSock(c, proto)
+			if fam == "star" && sp.TTL == "tight" {
+				// the farthest member is model.depth connections away: a hop limit of exactly that still
+				// lets every message reach every member
+				if err := s.SetOption(mangos.OptionTTL, model.depth); err != nil {
+					c.Violate(pre+"/ttl-rejected", "SetOption(TTL, %d) on %s: %v", model.depth, proto, err)
+					return
+				}
+				c.Count("star_members_with_ttl_equal_to_longest_path", 1)
+			}
 			n.socks = append(n.socks, s)
 			n.watch = append(n.watch, hx.WatchPipes(s))
 		}
@@ -620,8 +633,20 @@ func c08Topo(c *mon.Case, sp c08Spec) {
 		helpers.Add(1)
 		go func() {
 			defer helpers.Done()
+			// some members take the message object itself and, once they have looked at it, write all over
+			// it before letting it go — it is theirs; what any other member receives must not depend on that
+			scribble := (sp.Raw>>(8+uint(x)))&1 == 1
 			for {
-				b, err := s.Recv()
+				var b []byte
+				var m *mangos.Message
+				var err error
+				if scribble {
+					if m, err = s.RecvMsg(); err == nil {
+						b = m.Body
+					}
+				} else {
+					b, err = s.Recv()
+				}
 				if err != nil {
 					rx[x].mu.Lock()
 					rx[x].exitErr, rx[x].exited = err, true
@@ -629,6 +654,15 @@ func c08Topo(c *mon.Case, sp c08Spec) {
 					return
 				}
 				onMsg(x, b)
+				if m != nil {
+					for i := range m.Body {
+						m.Body[i] = 0xA5
+					}
+					for i := range m.Header {
+						m.Header[i] = 0xA5
+					}
+					m.Free()
+				}
 			}
 		}()
 	}
